@@ -254,7 +254,7 @@ let render rfc it =
   | 3 -> let v = int64_of_bytes it.bytes in if rfc && wide then RStr (Printf.sprintf "%Lu" v) else RNum (Printf.sprintf "%Lu" v)
   | 4 -> RBool (String.length it.bytes > 0 && it.bytes.[0] = '\001')
   | 5 when rfc ->
-    (* "%d.%0<precision>d" of quotient and absolute remainder *)
+    (* digits * 10^-precision written exactly: sign, at least one integer digit, precision fraction digits *)
     (match it.opts with
      | [] -> RStr "0"
      | p :: rest ->
@@ -262,11 +262,13 @@ let render rfc it =
        let d = int64_of_bytes it.bytes in
        let d = (match rest with 1 :: _ -> Int64.neg d | _ -> d) in
        if prec = 0 then RStr (Printf.sprintf "%Ld" d)
-       else if prec <= 18 then begin
-         let dv = ref 1L in
-         for _ = 1 to prec do dv := Int64.mul !dv 10L done;
-         RStr (Printf.sprintf "%Ld.%0*Ld" (Int64.div d !dv) prec (Int64.abs (Int64.rem d !dv)))
-       end else ROther)
+       else begin
+         let neg = Int64.compare d 0L < 0 in
+         let mag = Printf.sprintf "%Lu" (if neg then Int64.neg d else d) in
+         let mag = if String.length mag <= prec then String.make (prec + 1 - String.length mag) '0' ^ mag else mag in
+         let k = String.length mag - prec in
+         RStr ((if neg then "-" else "") ^ String.sub mag 0 k ^ "." ^ String.sub mag k prec)
+       end)
   | t when t >= 15 -> RStr (Printf.sprintf "unexpected %d" t)
   | _ -> ROther
 
